@@ -225,17 +225,25 @@ fn gen_op(rng: &mut Rng, pool: &mut Vec<Vec<char>>) -> Op {
             Op { expr: format!("(string-append {})", args.join(" ")).replace(" )", ")"), name: "string-append", expect: Ok(MV::Str(out)), arg_class: format!("count:{}", n.min(1)) }
         }
         19 | 20 => {
+            // variadic: true iff every adjacent pair is in the relation (R7RS 6.7)
             let op = *rng.pick(&["string=?", "string<?", "string>?", "string<=?", "string>=?"]);
-            let b = rng.usize(POOL);
-            let (x, y): (String, String) = (s.iter().collect(), pool[b].iter().collect());
-            let r = match op {
-                "string=?" => x == y,
-                "string<?" => s < pool[b],
-                "string>?" => s > pool[b],
-                "string<=?" => s <= pool[b],
-                _ => s >= pool[b],
+            let extra = if rng.usize(3) == 0 { 1 + rng.usize(3) } else { 1 };
+            let mut idx = vec![si];
+            for _ in 0..extra {
+                idx.push(rng.usize(POOL));
+            }
+            let rel = |a: &Vec<char>, b: &Vec<char>| match op {
+                "string=?" => a == b,
+                "string<?" => a < b,
+                "string>?" => a > b,
+                "string<=?" => a <= b,
+                _ => a >= b,
             };
-            Op { expr: format!("({} s{} s{})", op, si, b), name: "string-compare", expect: Ok(MV::Bool(r)), arg_class: op.to_string() }
+            let r = idx.windows(2).all(|w| rel(&pool[w[0]], &pool[w[1]]));
+            let first_pair = rel(&pool[idx[0]], &pool[idx[1]]);
+            let args: Vec<String> = idx.iter().map(|i| format!("s{}", i)).collect();
+            let cls = if idx.len() == 2 { op.to_string() } else { format!("{}:variadic:{}", op, if r { "chain-holds" } else if first_pair { "later-pair-breaks" } else { "first-pair-breaks" }) };
+            Op { expr: format!("({} {})", op, args.join(" ")), name: "string-compare", expect: Ok(MV::Bool(r)), arg_class: cls }
         }
         21 => {
             // case-insensitive predicates are specified the R7RS way: through foldcase (evaluated by marwood)
@@ -283,16 +291,23 @@ fn gen_op(rng: &mut Rng, pool: &mut Vec<Vec<char>>) -> Op {
             Op { expr: format!("(integer->char {})", n), name: "integer->char", expect: e, arg_class: cls.into() }
         }
         28 => {
-            let d = *rng.pick(&CHARS);
             let op = *rng.pick(&["char=?", "char<?", "char>?", "char<=?", "char>=?"]);
-            let r = match op {
-                "char=?" => c == d,
-                "char<?" => c < d,
-                "char>?" => c > d,
-                "char<=?" => c <= d,
-                _ => c >= d,
+            let extra = if rng.usize(3) == 0 { 1 + rng.usize(3) } else { 1 };
+            let mut cs = vec![c];
+            for _ in 0..extra {
+                cs.push(*rng.pick(&CHARS));
+            }
+            let rel = |a: char, b: char| match op {
+                "char=?" => a == b,
+                "char<?" => a < b,
+                "char>?" => a > b,
+                "char<=?" => a <= b,
+                _ => a >= b,
             };
-            Op { expr: format!("({} {} {})", op, chr(c), chr(d)), name: "char-compare", expect: Ok(MV::Bool(r)), arg_class: op.into() }
+            let r = cs.windows(2).all(|w| rel(w[0], w[1]));
+            let args: Vec<String> = cs.iter().map(|x| chr(*x)).collect();
+            let cls = if cs.len() == 2 { op.to_string() } else { format!("{}:variadic", op) };
+            Op { expr: format!("({} {})", op, args.join(" ")), name: "char-compare", expect: Ok(MV::Bool(r)), arg_class: cls }
         }
         _ => {
             let which = rng.usize(5);
